@@ -109,13 +109,16 @@ func (fp *FaultPlan) classify(d *simnet.Datagram) PktInfo {
 	if d.From == fp.serverAddr {
 		p.Dir = simnet.S2C
 	}
-	keys, _ := fp.kr.around(d.At)
+	keys, who := fp.kr.around(d.At)
 	seg, err := refcodec.DecodeDatagram(d.Data, keys)
 	if err != nil || seg == nil {
 		p.Kind = "other"
 		return p
 	}
 	p.OK = true
+	if seg.KeyIdx < len(who) {
+		fp.kr.remember(keys[seg.KeyIdx], who[seg.KeyIdx])
+	}
 	p.Seg = seg
 	p.Meta = seg.Meta
 	p.Kind = kindOf(seg.Meta.Type)
